@@ -183,6 +183,13 @@ class DictInterp:
                 if nxt is None:
                     raise AnalysisError(f"{fi.qualname}: super().{self.method}() has no internal target")
                 return DictInterp(self.prog, self.concrete, self.method).run(nxt)
+            # Base.to_dict(self): explicit call of a named class's method on this object
+            if isinstance(f, ast.Attribute) and f.attr in (self.method, "to_dict") and len(e.args) == 1 and isinstance(e.args[0], ast.Name) and e.args[0].id == "self":
+                target_cls = self.prog.resolve_class(fi.module, f.value)
+                if hasattr(target_cls, "methods"):
+                    nxt = self.prog.lookup_method(target_cls, f.attr)
+                    if nxt is not None:
+                        return DictInterp(self.prog, self.concrete, f.attr).run(nxt)
             if isinstance(f, ast.Attribute):
                 recv = self._expr(fi, f.value, env)
                 if isinstance(recv, DV):
